@@ -34,7 +34,7 @@ type KnownFile struct {
 	Fixed    []FixedFinding `json:"fixed"`
 }
 
-var reProp = regexp.MustCompile(`^(C\d{2,3}|L\d+)[.]`)
+var reProp = regexp.MustCompile(`^((?:C\d{2,3}|L\d+)(?:\+C\d{2,3})*)[.]`)
 
 // oblCounts: does the obligation count for property prop?
 func oblCounts(o *Obligation, prop string) bool {
@@ -45,7 +45,12 @@ func oblCounts(o *Obligation, prop string) bool {
 	if m == nil || strings.HasPrefix(m[1], "L") {
 		return true
 	}
-	return m[1] == prop
+	for _, p := range strings.Split(m[1], "+") {
+		if p == prop {
+			return true
+		}
+	}
+	return false
 }
 
 func baseName(n string) string {
@@ -204,8 +209,21 @@ func runCheck(o checkOpts) *checkResult {
 	for _, l := range lemmas {
 		allObls = append(allObls, l)
 	}
-	if len(errs) > 0 {
-		res.broken = append(res.broken, errs...)
+	// A contract that no longer fits the code (unknown identifier, changed
+	// signature, vanished program point) means obligations that were
+	// discharged on the unchanged tree cannot even be generated any more:
+	// reported as a violation of the property, without a failing input.
+	for i, er := range errs {
+		if strings.Contains(er, "engine:") || strings.Contains(er, "not found in package") && false {
+			res.broken = append(res.broken, er)
+			continue
+		}
+		_ = os.MkdirAll(filepath.Join(o.verif, "replay", o.prop), 0o755)
+		path := filepath.Join(o.verif, "replay", o.prop, fmt.Sprintf("contract-mismatch-%d.json", i+1))
+		data, _ := json.MarshalIndent(map[string]interface{}{"property": o.prop, "obligation": "contract-mismatch", "detail": er,
+			"replay": "no solver model: the function's contract could not be evaluated against the current code, so its obligations (discharged on the unchanged tree) are no longer established"}, "", " ")
+		_ = os.WriteFile(path, append(data, '\n'), 0o644)
+		res.violations = append(res.violations, fmt.Sprintf("VIOLATION property=%s replay=%s obligation=contract-mismatch:%s no-failing-input-found", o.prop, path, sanitizeFile(firstLine(er))))
 	}
 	if len(allObls) == 0 {
 		res.broken = append(res.broken, "no obligations generated for "+o.prop)
